@@ -69,6 +69,24 @@ def _resolve(node: ast.AST, env: dict, depth: int = 0) -> ast.AST:
     return node
 
 
+class _WriteOut(ast.NodeTransformer):
+    def __init__(self, env, depth=0):
+        self.env, self.depth = env, depth
+
+    def visit_Name(self, node):
+        vals = self.env.get(node.id, [])
+        if isinstance(node.ctx, ast.Load) and len(vals) == 1 and self.depth < 6:
+            import copy
+            return _WriteOut(self.env, self.depth + 1).visit(copy.deepcopy(vals[0]))
+        return node
+
+
+def _written_out(node: ast.AST, env: dict) -> ast.AST:
+    """The expression with every single-assignment name of env replaced by its value (named intermediate results)."""
+    import copy
+    return _WriteOut(env).visit(copy.deepcopy(node))
+
+
 def _const_str(node: ast.AST) -> str:
     if isinstance(node, ast.Constant) and isinstance(node.value, str):
         return node.value
@@ -758,23 +776,33 @@ def _debug(repo: Path) -> dict:
     var = lp.target.id
     idx_call = idx_ref = None
     ref_name = None
+    cands: dict = {}
     deep = False
     for i, st in enumerate(lp.body):
         if any(isinstance(c, ast.Call) and isinstance(c.func, ast.Name) and c.func.id == var for c in ast.walk(st)):
             idx_call = i if idx_call is None else idx_call
         if isinstance(st, ast.If) and ast.unparse(st.test) == "debug" and idx_call is None and not st.orelse:
-            asg = [x for x in st.body if isinstance(x, (ast.Assign, ast.AnnAssign))]
-            if len(asg) == 1 and len(st.body) == 1:
-                tgt = asg[0].targets[0] if isinstance(asg[0], ast.Assign) else asg[0].target
-                v = ast.unparse(asg[0].value).replace(" ", "")
-                if isinstance(tgt, ast.Name) and v in ("detector.to_xarray().copy(deep=True)", "detector.to_xarray().copy()",
-                                                        "detector.to_xarray().copy(deep=False)", "detector.to_xarray()",
-                                                        "copy.deepcopy(detector.to_xarray())", "deepcopy(detector.to_xarray())"):
-                    ref_name, idx_ref = tgt.id, i
-                    deep = v in ("detector.to_xarray().copy(deep=True)", "copy.deepcopy(detector.to_xarray())",
-                                 "deepcopy(detector.to_xarray())")
+            # candidates: every name of the block whose value, with the block's named intermediate results written out,
+            # is `detector.to_xarray()` or a copy of it; the reference is the one the comparison uses (below)
+            benv = _assigns(st)
+            for x in st.body:
+                if N.is_noise(x):
+                    continue
+                tgt = x.targets[0] if isinstance(x, ast.Assign) and len(x.targets) == 1 else getattr(x, "target", None)
+                if not isinstance(x, (ast.Assign, ast.AnnAssign)) or not isinstance(tgt, ast.Name) or len(benv.get(tgt.id, [])) != 1:
+                    continue
+                v = ast.unparse(_written_out(x.value, benv)).replace(" ", "")
+                if v in ("detector.to_xarray().copy(deep=True)", "detector.to_xarray().copy()",
+                         "detector.to_xarray().copy(deep=False)", "detector.to_xarray()",
+                         "copy.deepcopy(detector.to_xarray())", "deepcopy(detector.to_xarray())"):
+                    cands[tgt.id] = (i, v in ("detector.to_xarray().copy(deep=True)", "copy.deepcopy(detector.to_xarray())",
+                                              "deepcopy(detector.to_xarray())"))
     if idx_call is None:
         fail(lp, "no model call")
+    after_all = [st for st in lp.body[idx_call + 1:] if isinstance(st, ast.If) and ast.unparse(st.test) == "debug"]
+    used = [k for k in cands if any(isinstance(n, ast.Name) and n.id == k for b_ in after_all for n in ast.walk(b_))]
+    if len(used) == 1:
+        ref_name, (idx_ref, deep) = used[0], cands[used[0]]
     if ref_name is None:
         fail(lp, "the reference of the debug comparison must be `detector.to_xarray()` (or a copy of it) taken in `if debug:` "
                  "BEFORE the model call")
